@@ -104,6 +104,9 @@ extern const op_t ops_bn[];
 #ifdef ORACLE_FP
 extern const op_t ops_fp[];
 #endif
+#ifdef ORACLE_NT
+extern const op_t ops_nt[];
+#endif
 #ifdef ORACLE_EP
 extern const op_t ops_ep[];
 #endif
@@ -121,6 +124,9 @@ static const op_t *tables[] = {
 #endif
 #ifdef ORACLE_FP
 	ops_fp,
+#endif
+#ifdef ORACLE_NT
+	ops_nt,
 #endif
 #ifdef ORACLE_EP
 	ops_ep,
